@@ -81,6 +81,10 @@ func loadLock(path string) (map[string]map[string]bool, error) {
 		if !ok {
 			continue
 		}
+		if strings.HasPrefix(name, "!fail ") {
+			// baseline: obligation that is generated but not discharged on the unchanged tree (never claimed)
+			p, name = p+"!", strings.TrimPrefix(name, "!fail ")
+		}
 		if lock[p] == nil {
 			lock[p] = map[string]bool{}
 		}
@@ -287,6 +291,7 @@ func cmdCheck(args []string) int {
 	replayDir := filepath.Join(*verif, "replays", prop)
 	os.RemoveAll(replayDir)
 	isTwin := func(o *Obligation) bool { return strings.HasSuffix(o.Label, "!outside-known") }
+	var unclaimedFailing []*Obligation
 	for _, o := range all {
 		solverTime += o.TimeS
 		if isTwin(o) {
@@ -330,8 +335,10 @@ func cmdCheck(args []string) int {
 			continue
 		}
 		if !inLock && !*updateLock && len(locked) > 0 {
-			// never claimed: reported in evidence, not counted, not an alarm
+			// never claimed: reported in evidence, not counted; an alarm only if this function now has MORE failing
+			// obligations of this kind than on the unchanged tree (see newFailures below)
 			undecidedNames = append(undecidedNames, o.Name()+" ("+o.Verdict+", not in lock)")
+			unclaimedFailing = append(unclaimedFailing, o)
 			continue
 		}
 		if *updateLock {
@@ -342,6 +349,43 @@ func cmdCheck(args []string) int {
 		nViol++
 		p := writeReplay(replayDir, prop, o, fcOf[o], "")
 		violLines = append(violLines, violationLine(prop, p, o, fcOf[o], *verif))
+	}
+	// new failures: a function under contract has more refuted obligations of some kind than the recorded baseline
+	// (robust against renames: only the count per function and kind matters; which ones are reported = names not in the baseline)
+	baseline := lock[prop+"!"]
+	kindOf := func(name string) string {
+		i := strings.Index(name, "#")
+		if i < 0 {
+			return name
+		}
+		j := strings.Index(name[i:], ":")
+		if j < 0 {
+			return name
+		}
+		return name[:i+j]
+	}
+	baseCount := map[string]int{}
+	for n := range baseline {
+		baseCount[kindOf(n)]++
+	}
+	nowCount := map[string]int{}
+	for _, o := range unclaimedFailing {
+		if o.Verdict == "refuted" {
+			nowCount[kindOf(o.Name())]++
+		}
+	}
+	if !*updateLock {
+		for _, o := range unclaimedFailing {
+			if o.Verdict != "refuted" || baseline[o.Name()] {
+				continue
+			}
+			k := kindOf(o.Name())
+			if nowCount[k] > baseCount[k] {
+				nViol++
+				p := writeReplay(replayDir, prop, o, fcOf[o], "new failing obligation: this function has more refuted obligations of this kind than on the unchanged tree")
+				violLines = append(violLines, violationLine(prop, p, o, fcOf[o], *verif))
+			}
+		}
 	}
 	// locked obligations that vanished
 	var vanished, vanishedSafety []string
@@ -521,6 +565,7 @@ func rewriteLock(path, prop string, all []*Obligation, findings []*Finding) erro
 		return err
 	}
 	lock[prop] = map[string]bool{}
+	delete(lock, prop+"!")
 	for _, o := range all {
 		if strings.HasSuffix(o.Label, "!outside-known") {
 			continue
@@ -533,12 +578,21 @@ func rewriteLock(path, prop string, all []*Obligation, findings []*Finding) erro
 		}
 		if o.Verdict == "discharged" || isFinding {
 			lock[prop][o.Name()] = true
+		} else {
+			if lock[prop+"!"] == nil {
+				lock[prop+"!"] = map[string]bool{}
+			}
+			lock[prop+"!"][o.Name()] = true
 		}
 	}
 	var lines []string
 	for p, m := range lock {
 		for n := range m {
-			lines = append(lines, p+" "+n)
+			if strings.HasSuffix(p, "!") {
+				lines = append(lines, strings.TrimSuffix(p, "!")+" !fail "+n)
+			} else {
+				lines = append(lines, p+" "+n)
+			}
 		}
 	}
 	sort.Strings(lines)
